@@ -71,7 +71,11 @@ def disk_base():
         import atexit
         import shutil
         import tempfile
-        d = os.path.realpath(tempfile.mkdtemp(prefix='simverif-disk-'))
+        parent = os.environ.get('SIMVERIF_SCRATCH')
+        if parent and os.path.isdir(parent):
+            d = os.path.realpath(tempfile.mkdtemp(prefix='disk-', dir=parent))     # removed by the runner
+        else:
+            d = os.path.realpath(tempfile.mkdtemp(prefix='simverif-disk-'))
         _DISK_BASE[0] = d
         pid = _orig.get('getpid', os.getpid)()
 
